@@ -331,7 +331,11 @@ def assemble(unit_dir, mode='verify'):
             items.append({'kind': 'fn', 'file': os.path.join(REPO, c.file), 'path': c.path, 'anchors': anchors,
                           'replace_stmt': c.replace_stmt, 'replace_expr': c.replace_expr,
                           'no_rewrite': [k[3:] for k in c.opts if k.startswith('no-')],
-                          'sig_only': c.stub, 'retain': c.opts.get('retain'), 'mutself': bool(c.opts.get('mutself')), 'keeparms': [x for x in str(c.opts.get('keeparms', '')).split('|') if x and x != 'True'], 'havoc': [x for x in str(c.opts.get('havoc', '')).split(',') if x and x != 'True'], 'mutparam': [x for x in str(c.opts.get('mutparam', '')).split(',') if x and x != 'True'], 'setiter': [x for x in str(c.opts.get('setiter', '')).split(',') if x and x != 'True']})
+                          'sig_only': c.stub, 'no_inline': bool(c.opts.get('no-inline')), 'retain': c.opts.get('retain'), 'mutself': bool(c.opts.get('mutself')), 'keeparms': [x for x in str(c.opts.get('keeparms', '')).split('|') if x and x != 'True'], 'havoc': [x for x in str(c.opts.get('havoc', '')).split(',') if x and x != 'True'], 'mutparam': [x for x in str(c.opts.get('mutparam', '')).split(',') if x and x != 'True'], 'setiter': [x for x in str(c.opts.get('setiter', '')).split(',') if x and x != 'True']})
+    known = sorted(set(re.split(r'::', c.path.split('>::')[-1])[-1] for kind, c in chunks if kind == 'fn'))
+    for it in items:
+        if it['kind'] == 'fn':
+            it['known_fns'] = known
     resp = run_vx(items, meta['features'])
     for it, r in zip(items, resp):
         if not r['ok']:
@@ -383,6 +387,8 @@ def assemble(unit_dir, mode='verify'):
                   'hash': hashlib.sha256(r['orig_norm'].encode()).hexdigest()[:12]}
             if c.opts.get('pin') and c.opts['pin'] != fn['hash']:
                 raise Undecided(f"fn {c.path}: pinned text changed (now {fn['hash']}); the assumed contract no longer applies")
+            fn['inlined'] = r['rewrites'].get('R23.inline_helper', 0)
+            fn['anchors_lost'] = len(r.get('missing_anchors', []))
             fn['first_line'] = len(g.lines) + 1
             retname = c.opts.get('ret', 'r')
             if r['impl_header']:
